@@ -48,6 +48,8 @@ def strategy(tier):
     return st.fixed_dictionaries({
         "segments": st.lists(st.lists(doc_s(), min_size=1, max_size=10), min_size=1, max_size=4),
         "bare_first": st.booleans(),
+        "retrofit": st.sampled_from([False, False, True]),
+        "delete_tail": st.booleans(),
         "delete": st.lists(st.integers(0, 60), max_size=4),
         "q": st.sampled_from(["every", "w", "w_or_v", "u", "or3", "w_and_v"]),
         "limits": st.lists(st.integers(1, 12), min_size=2, max_size=3),
@@ -101,12 +103,20 @@ def build(case):
             docs.append(d)
         w.commit(merge=False)
     dels = sorted(set(docs[i % len(docs)]["k"] for i in case["delete"]))
+    if case.get("delete_tail") and len(docs) > 1:
+        dels = sorted(set(dels) | set([docs[-1]["k"]]))
     if dels and len(dels) < len(docs):
         w = ix.writer()
         for k in dels:
             w.delete_by_term("k", k)
         w.commit(merge=False)
         docs = [d for d in docs if d["k"] not in dels]
+    if case.get("retrofit"):
+        # the posting-only twin gets its columns after the fact (sorting.add_sortable), on the segments as they are -
+        # deleted documents included
+        w = ix.writer()
+        sorting.add_sortable(w, "tx2", sorting.FieldFacet("tx2"))
+        w.commit(merge=False)
     return ix, docs
 
 
@@ -265,7 +275,13 @@ def run(case, out):
                     out.fail("c14.known:missing_values_position_column_vs_postings:%s:%s" % (col, direction),
                              {"column": a, "postings": b})
                 if direction == "asc" and "start" in (a, b) and a == b:
-                    out.fail("c14.missing_values_not_at_end:%s" % col, {"column": a, "postings": b})
+                    if case.get("retrofit") and col == "tx":
+                        # the posting-only twin was given columns by add_sortable: both requests now take the column
+                        # path, whose placement of missing values is the recorded finding
+                        out.fail("c14.known:missing_values_position_column_vs_postings:%s:%s" % (col, direction),
+                                 {"column": a, "postings": b, "retrofit": True})
+                    else:
+                        out.fail("c14.missing_values_not_at_end:%s" % col, {"column": a, "postings": b})
         # --- multi-key with mixed directions
         mf = sorting.MultiFacet([sorting.FieldFacet("tag"), sorting.FieldFacet("nm", reverse=True), sorting.FieldFacet("tx")])
         got = keys_of(s.search(q, limit=None, sortedby=mf))
